@@ -962,6 +962,7 @@ def stream_units(c, SI, defs, N):
         for n_, d, v, as_str in seq:
             D = SI.Dimension.from_powers(dict(d))
             val = D.wrap(float(v))
+            before = dict(U)
             try:
                 if not is_q(SI, val):
                     # a plain float is not accepted; a string that parses to a float is
@@ -975,6 +976,12 @@ def stream_units(c, SI, defs, N):
                 res.append('exists' if 'already defined' in str(e) else 'collision' if 'collides' in str(e) else 'value')
             except Exception as e:
                 res.append(exc_name(e))
+            # specification: a definition never changes the meaning of a name that was already defined
+            changed = [k for k, x in before.items() if k not in U or type(U[k]) is not type(x) or unwrap(SI, U[k]) != unwrap(SI, x)]
+            if changed:
+                nd += 1
+                c.failing_input('units-define:overwrites-existing-unit', 'defining a unit silently changes an already defined (prefixed) name',
+                                dict(stream='define', seq=[(n2, pows_str(d2), str(v2)) for n2, d2, v2, _ in seq], defining=n_, changed=changed[:5]))
         realkeys = ';'.join('%s=%s' % (k, rat(F(unwrap(SI, U[k])))) for k in U)
         want = m.split('|')
         mk = ';'.join('%s=%s' % (k, rat(F(float(F(v_))))) for k, v_ in (x.rsplit('=', 1) for x in want[1].split(';'))) if want[1] else ''
@@ -1046,25 +1053,30 @@ def stream_protocol(c, SI, N):
         nonlocal nbad
         nbad += 1
         c.failing_input('quantity-protocol:' + what, 'Quantity container protocol: ' + what, dict(stream='protocol', **kw))
+    def check(what, f, **kw):
+        try: ok = f()
+        except Exception as e: ok = False; kw = dict(kw, exc=repr(e))
+        if not ok: fail(what, **kw)
     for _ in range(N):
         d = rng.choice(HALF_DIMS); D = SI.Dimension.from_powers(dict(d))
         v = np_values(rng, rng.choice([(), (3,), (2, 3)]))
         v = float(v) if v.shape == () else v
         q = D.wrap(v)
         c.case(('protocol', pows_str(d), repr(v)), nontrivial=True)
-        if type(q) is not D or q.unwrap() is not v: fail('wrap/unwrap', dim=pows_str(d))
-        if SI.Dimensionless.wrap(v) is not v: fail('dimensionless wrap keeps the wrapper')
-        if D(q) is not q: fail('Dimension.__call__ on an instance')
-        if numpy.ndim(v) == 0 and bool(q) != bool(v): fail('__bool__')
-        if numpy.ndim(v):
-            if len(q) != len(v): fail('__len__')
-            items = list(q)
-            if any(type(x) is not D for x in items) or not all(numpy.array_equal(x.unwrap(), y) for x, y in zip(items, v)): fail('__iter__')
+        check('wrap/unwrap', lambda: type(q) is D and q.unwrap() is v, dim=pows_str(d))
+        check('dimensionless wrap keeps the wrapper', lambda: SI.Dimensionless.wrap(v) is v)
+        check('Dimension.__call__ on an instance', lambda: D(q) is q)
+        if numpy.ndim(v) == 0:
+            check('__bool__', lambda: bool(q) == bool(v))
+            check('__hash__', lambda: hash(q) == hash((D, v)))
         else:
-            if hash(q) != hash((D, v)): fail('__hash__')
-        q2 = pickle.loads(pickle.dumps(q))
-        if type(q2) is not D or not numpy.array_equal(q2.unwrap(), v): fail('pickle', dim=pows_str(d))
-        if repr(q) != repr(v) + D.__name__ or str(q) != str(v) + D.__name__: fail('repr/str')
+            check('__len__', lambda: len(q) == len(v))
+            check('__iter__', lambda: all(type(x) is D and numpy.array_equal(x.unwrap(), y) for x, y in zip(list(q), v)) and len(list(q)) == len(v))
+        def pick():
+            q2 = pickle.loads(pickle.dumps(q))
+            return type(q2) is D and numpy.array_equal(q2.unwrap(), v)
+        check('pickle', pick, dim=pows_str(d))
+        check('repr/str', lambda: repr(q) == repr(v) + D.__name__ and str(q) == str(v) + D.__name__)
         for bad in (5, 5., None, [1]):
             try: D(bad); fail('Dimension.__call__ accepts a non-string', value=repr(bad))
             except ValueError: pass
@@ -1073,17 +1085,21 @@ def stream_protocol(c, SI, N):
         except Exception: pass
     # string division and stringly/ags round trips on parsed quantities
     for s_ in ['5kN', '2.5m/s', '-864km/24h', '3mm2', '7μN*5h/6g', '1.5/min']:
-        q = SI.parse(s_); D = type(q)
-        if D.__stringly_dumps__(q) != s_ or q.__into_ags__() != s_: fail('stringly dumps', s=s_)
-        q3 = D.__stringly_loads__(s_); q4 = D.__from_ags__(s_)
-        if type(q3) is not D or q3.unwrap() != q.unwrap() or q4.unwrap() != q.unwrap(): fail('stringly loads', s=s_)
         other = rng.choice(['N', 'm/s', 'km/h', 'mm2', 'kg*m/s2', '/s', 'ms'])
-        try:
-            r = q / other; ok = type(SI.parse(other)) is D
-            if not ok or r != q.unwrap() / SI.parse(other).unwrap(): fail('division by a unit string', s=s_, unit=other)
-        except SI.DimensionError:
-            if type(SI.parse(other)) is D: fail('division by a unit string of the same dimension rejected', s=s_, unit=other)
         c.case(('strdiv', s_, other), nontrivial=True)
+        try:
+            q = SI.parse(s_); D = type(q); o = SI.parse(other)
+        except Exception as e:
+            fail('parse raises', s=s_, exc=repr(e)); continue
+        check('stringly dumps', lambda: D.__stringly_dumps__(q) == s_ and q.__into_ags__() == s_, s=s_)
+        check('stringly loads', lambda: type(D.__stringly_loads__(s_)) is D and D.__stringly_loads__(s_).unwrap() == q.unwrap() and D.__from_ags__(s_).unwrap() == q.unwrap(), s=s_)
+        try:
+            r = q / other
+            if type(o) is not D or r != q.unwrap() / o.unwrap(): fail('division by a unit string', s=s_, unit=other)
+        except SI.DimensionError:
+            if type(o) is D: fail('division by a unit string of the same dimension rejected', s=s_, unit=other)
+        except Exception as e:
+            fail('division by a unit string raises', s=s_, unit=other, exc=repr(e))
     c.obligation('oracle:quantity-protocol', nbad == 0, 'exploration', '%d quantities' % N)
     return
     yield
@@ -1536,10 +1552,20 @@ def stream_dispatch_decorator(c, N):
 
 def run_streams(c, gens):
     """drive generator streams in lockstep so that each round needs one start of the Lean driver"""
+    import traceback
+    def crashed(name, e):
+        # an exception escaping from a stream comes from the real code under test (every stream runs clean on the pinned tree):
+        # it is an outcome, reported as a broken correspondence of that stream, not an infrastructure failure
+        if isinstance(e, Infra): raise e
+        tb = traceback.format_exc()
+        c.log('stream %s stopped by %s' % (name, type(e).__name__))
+        c.obligation('stream:' + name, False, 'correspondence', 'stopped by %r' % e)
+        c.broken_no_input('stream:' + name, 'real code raised %s where the stream expects none' % type(e).__name__, dict(stream=name, traceback=tb[-1500:]))
     pending = []
     for name, g in gens:
         try: pending.append((name, g, next(g)))
-        except StopIteration: pass
+        except StopIteration: c.log('stream %s done' % name)
+        except Exception as e: crashed(name, e)
     rounds = 0
     while pending:
         allreq = []
@@ -1552,6 +1578,7 @@ def run_streams(c, gens):
             if bad: raise Infra('driver does not understand request %r of stream %s' % (bad[0], name))
             try: nxt.append((name, g, g.send(a)))
             except StopIteration: c.log('stream %s done' % name)
+            except Exception as e: crashed(name, e)
         pending = nxt
     c.extra['driver_rounds'] = rounds
 
@@ -1605,7 +1632,7 @@ def _run(c):
     for kind, replay in out['pending'].items():
         if kind in failed_kinds: c.count('handlers:mismatch-explained-by-failing-input')
         else: emit_broken('corr:handler:' + kind, 'handler and its model disagree, no failing input through the public API', replay)
-    related = {'handlers': {'api'}, 'units': {'parse', 'format', 'construct', 'define'}, 'parse': {'units'}, 'format': {'parse', 'construct'}, 'construct': {'parse'},
+    related = {'handlers': {'api', 'protocol'}, 'units': {'parse', 'format', 'construct', 'define'}, 'parse': {'units'}, 'format': {'parse', 'construct'}, 'construct': {'parse'},
                'names': {'dim-algebra', 'dim-laws'}, 'dim-algebra': {'dim-laws', 'names'}, 'compositions': {'api', 'dim-algebra'}}
     for name, what, replay in deferred:
         st = replay.get('stream')
